@@ -395,15 +395,20 @@ class BioConsert(RankAggAlgorithm, PairwiseBasedAlgorithm):
             cpt += n
 
     def _departure_rankings(self, dataset: Dataset, scoring_scheme: ScoringScheme, unify: bool = True,
-                            all_tied_as_well: bool = True) -> ndarray:
+                            all_tied_as_well: bool = True, mapping_elem_id: Dict[Element, int] = None) -> ndarray:
         """
 
         :param dataset: the dataset to consider
         :param scoring_scheme: the scoring scheme to consider
         :param unify: should the rankings be unified
         :param all_tied_as_well: should the ranking with all elements tied should be considered
+        :param mapping_elem_id: the mapping element -> int id used for the columns of the result. Default: the
+        mapping of the dataset. Must be the mapping of the dataset whose consensus is computed, as the cost matrix
+        and the final consensus are indexed with these ids
         :return: a 2D ndarray with nb_elements columns, res[i][j] = bucket id of element j in departure ranking i
         """
+        if mapping_elem_id is None:
+            mapping_elem_id = dataset.mapping_elem_id
 
         if unify and not dataset.is_complete:
             dataset_to_consider = dataset.unified_dataset()
@@ -421,12 +426,19 @@ class BioConsert(RankAggAlgorithm, PairwiseBasedAlgorithm):
             # and do not need to be unified
             rankings_cons = [alg.compute_consensus_rankings(dataset, scoring_scheme, True).consensus_rankings[0]
                              for alg in self._starting_algorithms]
-            return BioConsert()._departure_rankings(Dataset(rankings_cons), scoring_scheme, False, False)
+            return BioConsert()._departure_rankings(Dataset(rankings_cons), scoring_scheme, False, False,
+                                                    mapping_elem_id)
 
         else:
 
             # get for each departure ranking the initial value of kemeny score with the input Dataset
-            bucket_ids: ndarray = dataset_to_consider.get_bucket_ids().transpose()
+            # the ids of the elements must be the ones of the initial dataset: a derived dataset (unified dataset,
+            # dataset of the starting consensus) may number the elements differently
+            bucket_ids: ndarray = zeros((dataset_to_consider.nb_rankings, len(mapping_elem_id)), dtype=np_int32) - 1
+            for id_ranking, ranking in enumerate(dataset_to_consider.rankings):
+                for id_bucket, bucket in enumerate(ranking):
+                    for elem in bucket:
+                        bucket_ids[id_ranking][mapping_elem_id[elem]] = id_bucket
 
             # to be sure that all the departure rankings are different, use a dct
             distinct_rankings: Set[Tuple[int, ...]] = set()
